@@ -244,9 +244,9 @@ class Check:
             txt = open(path).read()
             isprop = n.startswith("Properties")
             thms = []
+            for m in re.finditer(r"^\s*(?:Theorem|Lemma|Corollary|Example|Fact|Remark|Proposition)\s+([A-Za-z_][\w']*)", txt, flags=re.M):
+                thms.append((m.group(1), txt.count("\n", 0, m.start()) + 1))
             if isprop:
-                for m in re.finditer(r"^\s*(?:Theorem|Lemma|Corollary|Example)\s+([A-Za-z_][\w']*)", txt, flags=re.M):
-                    thms.append((m.group(1), txt.count("\n", 0, m.start()) + 1))
                 res.theorems += [t[0] for t in thms]
             t1 = time.time()
             rc, out, err = sh(base + [path], timeout=timeout, cwd=wd)
@@ -254,7 +254,8 @@ class Check:
             res.log += "== %s rc=%d %.1fs\n%s%s\n" % (n, rc, dt, out[-20000:], err[-6000:])
             res.files.append((n, rc == 0, round(dt, 1)))
             if rc == 0:
-                res.discharged += [t[0] for t in thms]
+                if isprop:
+                    res.discharged += [t[0] for t in thms]
                 if isprop:
                     self._parse_assumptions(out, res)
             else:
@@ -268,7 +269,8 @@ class Check:
                     if l <= line:
                         cur = t
                 done = [t for (t, l) in thms if l < line and t != cur] if line else []
-                res.discharged += done
+                if isprop:
+                    res.discharged += done
                 msg = "timeout" if rc == 124 else err.strip()[-1500:]
                 res.failed.append((n, line, cur, msg))
                 # later files probably depend on this one: stop
